@@ -13,10 +13,8 @@ import (
 
 	sdkmath "cosmossdk.io/math"
 	sdk "github.com/cosmos/cosmos-sdk/types"
-	authtypes "github.com/cosmos/cosmos-sdk/x/auth/types"
 	banktypes "github.com/cosmos/cosmos-sdk/x/bank/types"
 
-	simapp "github.com/provenance-io/provenance/app"
 	"github.com/provenance-io/provenance/x/exchange"
 )
 
@@ -46,18 +44,26 @@ func c01DenomID(d string) int {
 
 func c01Owner(i int) sdk.AccAddress { return addrN(10 + i) } // owner id i (1-based)
 
+// Accounts are identified by their BYTES: the same account may be spelled in lower- and in
+// upper-case bech32 in messages and stored orders.
 type c01Intern struct{ addrs map[string]int }
 
 func newC01Intern(nOwners int) *c01Intern {
 	in := &c01Intern{addrs: map[string]int{}}
 	for i := 1; i <= nOwners; i++ {
-		in.addrs[c01Owner(i).String()] = i
+		in.addrs[string(c01Owner(i))] = i
 	}
 	return in
 }
 
+func (in *c01Intern) set(a sdk.AccAddress, id int) { in.addrs[string(a)] = id }
+
 func (in *c01Intern) addr(a string) int {
-	if id, ok := in.addrs[a]; ok {
+	bz, err := sdk.AccAddressFromBech32(a)
+	if err != nil {
+		panic("bad address " + a + ": " + err.Error())
+	}
+	if id, ok := in.addrs[string(bz)]; ok {
 		return id
 	}
 	panic("unknown address " + a)
@@ -79,6 +85,9 @@ type mOrder struct {
 	price   *big.Int
 	fees    []mCoin
 	partial bool
+	// multi-market stream: the owner's address as spelled in the message, and the market
+	ownerStr string
+	market   uint32
 }
 
 type mRatio struct {
@@ -99,15 +108,22 @@ func (o mOrder) toOrder() *exchange.Order {
 	assets := sdkCoin(mCoin{o.ad, o.assets})
 	price := sdkCoin(mCoin{o.pd, o.price})
 	ord := exchange.NewOrder(o.id)
+	owner, market := o.ownerStr, o.market
+	if owner == "" {
+		owner = c01Owner(o.owner).String()
+	}
+	if market == 0 {
+		market = 1
+	}
 	if o.ask {
-		ao := &exchange.AskOrder{MarketId: 1, Seller: c01Owner(o.owner).String(), Assets: assets, Price: price, AllowPartial: o.partial}
+		ao := &exchange.AskOrder{MarketId: market, Seller: owner, Assets: assets, Price: price, AllowPartial: o.partial}
 		if len(o.fees) > 0 {
 			c := sdkCoin(o.fees[0])
 			ao.SellerSettlementFlatFee = &c
 		}
 		return ord.WithAsk(ao)
 	}
-	bo := &exchange.BidOrder{MarketId: 1, Buyer: c01Owner(o.owner).String(), Assets: assets, Price: price, AllowPartial: o.partial}
+	bo := &exchange.BidOrder{MarketId: market, Buyer: owner, Assets: assets, Price: price, AllowPartial: o.partial}
 	for _, c := range sortCoins(o.fees) {
 		bo.BuyerSettlementFees = append(bo.BuyerSettlementFees, sdkCoin(c))
 	}
@@ -194,9 +210,41 @@ func coqRatio(r *mRatio) string {
 // ---------- generator ----------
 
 type c01Gen struct {
-	r    *rand.Rand
-	pool []*big.Int
-	w    *CaseWriter
+	r       *rand.Rand
+	pool    []*big.Int
+	w       *CaseWriter
+	feeBits int
+	forceOwners int
+	pend    [][]*c01Pending // per stream, interleaved when flushed so that the shards are balanced
+}
+
+func (g *c01Gen) emit(stream int, term string, desc map[string]any, key string) {
+	for len(g.pend) <= stream {
+		g.pend = append(g.pend, nil)
+	}
+	g.pend[stream] = append(g.pend[stream], &c01Pending{term: term, desc: desc, key: key})
+}
+
+// flushInterleaved hands the cases to the writer round-robin over the streams (a history costs
+// ~100x a pure case in the evaluator; interleaving spreads them evenly over the shards).
+func (g *c01Gen) flushInterleaved() {
+	type slot struct {
+		key float64
+		p   *c01Pending
+	}
+	var all []slot
+	for _, l := range g.pend {
+		for j, p := range l {
+			all = append(all, slot{(float64(j) + 0.5) / float64(len(l)), p})
+		}
+	}
+	sort.SliceStable(all, func(i, j int) bool { return all[i].key < all[j].key })
+	for _, s := range all {
+		g.w.Add(s.p.term, s.p.desc)
+		if s.p.key != "" {
+			g.w.Nontrivial(s.p.key)
+		}
+	}
 }
 
 func (g *c01Gen) amount(maxBits int) *big.Int {
@@ -273,6 +321,11 @@ type planOpts struct {
 	flatBid  *mCoin
 	feeBits  int
 	distinct bool // buyers and sellers disjoint? (false: owners reused across sides)
+	// fee builders of a market (multi-market stream): settlement fees an order of the given size
+	// must carry to be admitted; proportional = every amount a multiple of the assets
+	askFees func(assets, price *big.Int, proportional bool) []mCoin
+	bidFees func(assets, price *big.Int, proportional bool) []mCoin
+	owner   func() int
 }
 
 func (g *c01Gen) plan(o planOpts) c01Plan {
@@ -374,13 +427,18 @@ func (g *c01Gen) plan(o planOpts) c01Plan {
 		return g.amount(o.feeBits)
 	}
 	owner := func() int { return 1 + r.Intn(o.nOwners) }
+	if o.owner != nil {
+		owner = o.owner
+	}
 	for i := 0; i < nA; i++ {
 		ord := mOrder{ask: true, owner: owner(), ad: o.ad, pd: o.pd, assets: askAssets[i], price: askPrice[i], partial: r.Intn(2) == 0}
 		last := p.partialSide == 1 && i == nA-1
 		if last {
 			ord.partial = true
 		}
-		if o.flatAsk != nil {
+		if o.askFees != nil {
+			ord.fees = o.askFees(ord.assets, ord.price, last && p.even)
+		} else if o.flatAsk != nil {
 			ord.fees = []mCoin{{o.flatAsk.d, addB(o.flatAsk.a, feeAmt(ord.assets, last && p.even))}}
 			if last && p.even {
 				ord.fees[0].a = mulB(ord.assets, addB(o.flatAsk.a, g.small(3)))
@@ -398,7 +456,10 @@ func (g *c01Gen) plan(o planOpts) c01Plan {
 		}
 		nf := r.Intn(3)
 		used := map[int]bool{}
-		if o.flatBid != nil {
+		if o.bidFees != nil {
+			ord.fees = o.bidFees(ord.assets, ord.price, last && p.even)
+			nf = 0
+		} else if o.flatBid != nil {
 			amt := addB(o.flatBid.a, feeAmt(ord.assets, last && p.even))
 			if last && p.even {
 				amt = mulB(ord.assets, addB(o.flatBid.a, g.small(3)))
@@ -615,16 +676,17 @@ func (g *c01Gen) pureBuild(idx int) {
 		obs = "(Some " + coqSettlement(in, stl) + ")"
 	}
 	term := fmt.Sprintf("CBuild %s %s %s %s", asksTerm, bidsTerm, lookupTerm, obs)
-	w.Add(term, map[string]any{"stream": "pure", "fn": "BuildSettlement", "asks": len(asks), "bids": len(bids), "planned_partial": p.partialSide,
-		"even": p.even, "perturbed": p.perturbed, "ratio": p.ratio != nil, "ok": err == nil, "term": term})
+	key := ""
+	if err == nil && (len(asks)+len(bids) > 2 || stl.PartialOrderLeft != nil) {
+		key = term
+	}
+	g.emit(0, term, map[string]any{"stream": "pure", "fn": "BuildSettlement", "asks": len(asks), "bids": len(bids), "planned_partial": p.partialSide,
+		"even": p.even, "perturbed": p.perturbed, "ratio": p.ratio != nil, "ok": err == nil, "term": term}, key)
 	w.Count("build")
 	if err == nil {
 		w.Count("build_accepted")
 		if stl.PartialOrderLeft != nil {
 			w.Count("build_accepted_partial")
-		}
-		if len(asks)+len(bids) > 2 || stl.PartialOrderLeft != nil {
-			w.Nontrivial(term)
 		}
 	} else {
 		w.Count("build_rejected")
@@ -717,11 +779,14 @@ func (g *c01Gen) pureSplit() {
 		obs = fmt.Sprintf("(Some (%s, %s))", coqOrder(in, filled), coqOrder(in, unfilled))
 	}
 	term := fmt.Sprintf("CSplit %s %s %s", ordTerm, zBig(k), obs)
-	w.Add(term, map[string]any{"stream": "pure", "fn": "Order.Split", "ok": err == nil, "term": term})
+	key := ""
+	if err == nil {
+		key = term
+	}
+	g.emit(1, term, map[string]any{"stream": "pure", "fn": "Order.Split", "ok": err == nil, "term": term}, key)
 	w.Count("split")
 	if err == nil {
 		w.Count("split_accepted")
-		w.Nontrivial(term)
 	} else {
 		w.Count("split_rejected")
 	}
@@ -730,607 +795,115 @@ func (g *c01Gen) pureSplit() {
 	}
 }
 
-// ---------- stateful stream ----------
-
-type c01Hist struct {
-	g        *c01Gen
-	t        *testing.T
-	app      *simapp.App
-	ctx      sdk.Context
-	in       *c01Intern
-	nOwners  int
-	marketID uint32
-	admin    sdk.AccAddress
-	accts    []sdk.AccAddress // owners..., market, fee collector
-	acctIDs  []int
-	ratios   []exchange.FeeRatio
-	ids      []uint64 // every order id ever created in this history
-	steps    []string
-	nOps     int
-	nOK      int
-}
-
-func (h *c01Hist) observe(ok bool, fills string) string {
-	var bal, hold, sup []string
-	for _, a := range h.accts {
-		for _, d := range c01Denoms {
-			bal = append(bal, zInt(h.app.BankKeeper.GetBalance(h.ctx, a, d).Amount))
-			hc, err := h.app.HoldKeeper.GetHoldCoin(h.ctx, a, d)
-			if err != nil {
-				h.t.Fatalf("hold: %v", err)
-			}
-			hold = append(hold, zInt(hc.Amount))
-		}
-	}
-	for _, d := range c01Denoms {
-		sup = append(sup, zInt(h.app.BankKeeper.GetSupply(h.ctx, d).Amount))
-	}
-	var orders []*exchange.Order
-	for _, id := range h.ids {
-		o, err := h.app.ExchangeKeeper.GetOrder(h.ctx, id)
-		if err != nil {
-			h.t.Fatalf("get order: %v", err)
-		}
-		if o != nil {
-			orders = append(orders, o)
-		}
-	}
-	return fmt.Sprintf("(SO %s %s %s %s %s %s)", coqBool(ok), coqList(bal), coqList(hold), coqList(sup), coqOrders(h.in, orders), fills)
-}
-
-// exec runs one message through the router in a cache context (written only on success).
-func (h *c01Hist) exec(msg sdk.Msg, vb func() error) (*sdk.Result, error) {
-	cctx, write := h.ctx.CacheContext()
-	var res *sdk.Result
-	err := try(func() error {
-		if e := vb(); e != nil {
-			return e
-		}
-		handler := h.app.MsgServiceRouter().Handler(msg)
-		if handler == nil {
-			return fmt.Errorf("no handler for %T", msg)
-		}
-		var e error
-		res, e = handler(cctx, msg)
-		return e
-	})
-	if err == nil {
-		write()
-	}
-	return res, err
-}
-
-func (h *c01Hist) record(opTerm string, ok bool, fills string, kind string) {
-	h.steps = append(h.steps, fmt.Sprintf("(%s, %s)", opTerm, h.observe(ok, fills)))
-	h.nOps++
-	h.g.w.Count("op_" + kind)
-	if ok {
-		h.nOK++
-		h.g.w.Count("op_" + kind + "_accepted")
-	}
-}
-
-// create submits a create-ask / create-bid message and records the step; returns the order id.
-func (h *c01Hist) create(o mOrder) uint64 {
-	ord := o.toOrder()
-	var msg sdk.Msg
-	var vb func() error
-	if o.ask {
-		ao := *ord.GetAskOrder()
-		ao.MarketId = h.marketID
-		m := &exchange.MsgCreateAskRequest{AskOrder: ao}
-		msg, vb = m, m.ValidateBasic
-	} else {
-		bo := *ord.GetBidOrder()
-		bo.MarketId = h.marketID
-		m := &exchange.MsgCreateBidRequest{BidOrder: bo}
-		msg, vb = m, m.ValidateBasic
-	}
-	res, err := h.exec(msg, vb)
-	var id uint64
-	if err == nil {
-		switch v := res.MsgResponses[0].GetCachedValue().(type) {
-		case *exchange.MsgCreateAskResponse:
-			id = v.OrderId
-		case *exchange.MsgCreateBidResponse:
-			id = v.OrderId
-		default:
-			h.t.Fatalf("unexpected response %T", v)
-		}
-		h.ids = append(h.ids, id)
-	}
-	ord.OrderId = id
-	if id == 0 {
-		ord.OrderId = 999999
-	}
-	h.record(fmt.Sprintf("OpCreate %s %s", coqOrder(h.in, ord), coqBool(err == nil)), err == nil, "[]", "create")
-	return id
-}
-
-func (h *c01Hist) ratioLookup(denom string) (*exchange.FeeRatio, error) {
-	for i := range h.ratios {
-		if h.ratios[i].Price.Denom == denom && h.ratios[i].Fee.Denom == denom {
-			return &h.ratios[i], nil
-		}
-	}
-	if len(h.ratios) > 0 {
-		return nil, fmt.Errorf("no seller settlement fee ratio found for denom %q", denom)
-	}
-	return nil, nil
-}
-
-// dryRun evaluates the real BuildSettlement on the current order records (the per-order amounts
-// the property speaks about: assets filled, price applied, fees to pay).
-func (h *c01Hist) dryRun(askIDs, bidIDs []uint64) string {
-	get := func(ids []uint64) []*exchange.Order {
-		var out []*exchange.Order
-		for _, id := range ids {
-			o, err := h.app.ExchangeKeeper.GetOrder(h.ctx, id)
-			if err != nil || o == nil {
-				return nil
-			}
-			out = append(out, o)
-		}
-		return out
-	}
-	asks, bids := get(askIDs), get(bidIDs)
-	if asks == nil || bids == nil {
-		return "[]"
-	}
-	var stl *exchange.Settlement
-	err := try(func() error {
-		var e error
-		stl, e = exchange.BuildSettlement(asks, bids, h.ratioLookup)
-		return e
-	})
-	if err != nil {
-		return "[]"
-	}
-	var items []string
-	add := func(f *exchange.FilledOrder) {
-		items = append(items, fmt.Sprintf("(%d, %s, %s, %s)", f.GetOrderID(), zInt(f.GetAssets().Amount), zInt(f.GetPrice().Amount), coqCoins(f.GetSettlementFees())))
-	}
-	for _, f := range stl.FullyFilledOrders {
-		add(f)
-	}
-	if stl.PartialOrderFilled != nil {
-		add(stl.PartialOrderFilled)
-	}
-	return coqList(items)
-}
-
-func coqIDs(ids []uint64) string {
-	items := make([]string, len(ids))
-	for i, id := range ids {
-		items[i] = fmt.Sprint(id)
-	}
-	return coqList(items)
-}
-
-func (h *c01Hist) settle(askIDs, bidIDs []uint64, expectPartial bool) bool {
-	fills := h.dryRun(askIDs, bidIDs)
-	msg := &exchange.MsgMarketSettleRequest{Admin: h.admin.String(), MarketId: h.marketID, AskOrderIds: askIDs, BidOrderIds: bidIDs, ExpectPartial: expectPartial}
-	_, err := h.exec(msg, msg.ValidateBasic)
-	if err != nil {
-		fills = "[]"
-	}
-	h.record(fmt.Sprintf("OpSettle %s %s %s", coqIDs(askIDs), coqIDs(bidIDs), coqBool(expectPartial)), err == nil, fills, "settle")
-	return err == nil
-}
-
-func (h *c01Hist) fillBids(seller int, ids []uint64, total sdk.Coins, flat *sdk.Coin) bool {
-	msg := &exchange.MsgFillBidsRequest{Seller: c01Owner(seller).String(), MarketId: h.marketID, TotalAssets: total, BidOrderIds: ids, SellerSettlementFlatFee: flat}
-	_, err := h.exec(msg, msg.ValidateBasic)
-	fl := "None"
-	if flat != nil {
-		fl = fmt.Sprintf("(Some (%d, %s))", c01DenomID(flat.Denom), zInt(flat.Amount))
-	}
-	h.record(fmt.Sprintf("OpFillBids %d %s %s %s", seller, coqIDs(ids), coqCoins(total), fl), err == nil, "[]", "fill_bids")
-	return err == nil
-}
-
-func (h *c01Hist) fillAsks(buyer int, ids []uint64, total sdk.Coin, fees sdk.Coins) bool {
-	msg := &exchange.MsgFillAsksRequest{Buyer: c01Owner(buyer).String(), MarketId: h.marketID, TotalPrice: total, AskOrderIds: ids, BuyerSettlementFees: fees}
-	_, err := h.exec(msg, msg.ValidateBasic)
-	h.record(fmt.Sprintf("OpFillAsks %d %s (%d, %s) %s", buyer, coqIDs(ids), c01DenomID(total.Denom), zInt(total.Amount), coqCoins(fees)), err == nil, "[]", "fill_asks")
-	return err == nil
-}
-
-type bigOrder struct {
-	id      uint64
-	ask     bool
-	slices  int64 // remaining
-	q, u    *big.Int
-	feeUnit []mCoin
-	owner   int
-}
-
-func (g *c01Gen) history(t *testing.T, app *simapp.App, base sdk.Context, n int) {
+// purePerm: BuildSettlement on two orderings of the same orders.
+func (g *c01Gen) purePerm() {
 	r := g.r
 	w := g.w
-	ctx, _ := base.CacheContext()
+	in := newC01Intern(5)
 	nOwners := 2 + r.Intn(4)
-	h := &c01Hist{g: g, t: t, app: app, ctx: ctx, in: newC01Intern(5), nOwners: nOwners, admin: addrN(c01AdminAddrN)}
-
-	// --- configuration ---
 	ad := 1 + r.Intn(len(c01Denoms))
 	pd := ad%len(c01Denoms) + 1
-	if r.Intn(2) == 0 {
-		pd = (ad+1)%len(c01Denoms) + 1
-	}
-	var ratio *mRatio
-	var ratioTerms []string
-	if r.Intn(10) < 7 {
-		rp := big.NewInt([]int64{1, 3, 7, 20, 100, 1000, 10000, 33333}[r.Intn(8)])
-		rf := new(big.Int).Rand(r, addB(new(big.Int).Quo(rp, big.NewInt(4)), big.NewInt(1)))
-		ratio = &mRatio{pd: pd, fd: pd, p: rp, f: rf}
-		h.ratios = append(h.ratios, exchange.FeeRatio{Price: sdkCoin(mCoin{pd, rp}), Fee: sdkCoin(mCoin{pd, rf})})
-		ratioTerms = append(ratioTerms, coqRatio(ratio))
-		if r.Intn(4) == 0 { // an unrelated ratio for another denom
-			od := ad
-			h.ratios = append(h.ratios, exchange.FeeRatio{Price: sdkCoin(mCoin{od, big.NewInt(10)}), Fee: sdkCoin(mCoin{od, big.NewInt(1)})})
-			ratioTerms = append(ratioTerms, coqRatio(&mRatio{pd: od, fd: od, p: big.NewInt(10), f: big.NewInt(1)}))
+	maxBits := []int{8, 16, 40, 63, 70, 128}[r.Intn(6)]
+	var p c01Plan
+	for tries := 0; tries < 20; tries++ {
+		p = g.plan(planOpts{nOwners: nOwners, maxBits: maxBits, maxN: 6, ad: ad, pd: pd, drawR: true, feeBits: 40})
+		if p.partialSide == 0 || r.Intn(4) == 0 {
+			break
 		}
 	}
-	var flatAsk, flatBid *mCoin
-	market := exchange.Market{
-		MarketDetails:             exchange.MarketDetails{Name: "c01"},
-		AcceptingOrders:           true,
-		AllowUserSettlement:       true,
-		FeeSellerSettlementRatios: h.ratios,
-		AccessGrants:              []exchange.AccessGrant{{Address: h.admin.String(), Permissions: exchange.AllPermissions()}},
+	id := uint64(1)
+	var asks, bids []*exchange.Order
+	for i := range p.asks {
+		p.asks[i].id = id
+		id++
+		asks = append(asks, p.asks[i].toOrder())
 	}
-	sflat, bflat := "[]", "[]"
-	if r.Intn(10) < 3 {
-		flatAsk = &mCoin{1 + r.Intn(len(c01Denoms)), big.NewInt(r.Int63n(20) + 1)}
-		market.FeeSellerSettlementFlat = []sdk.Coin{sdkCoin(*flatAsk)}
-		sflat = fmt.Sprintf("[(%d, %s)]", flatAsk.d, zBig(flatAsk.a))
+	for i := range p.bids {
+		p.bids[i].id = id
+		id++
+		bids = append(bids, p.bids[i].toOrder())
 	}
-	if r.Intn(10) < 3 {
-		flatBid = &mCoin{1 + r.Intn(len(c01Denoms)), big.NewInt(r.Int63n(20) + 1)}
-		market.FeeBuyerSettlementFlat = []sdk.Coin{sdkCoin(*flatBid)}
-		bflat = fmt.Sprintf("[(%d, %s)]", flatBid.d, zBig(flatBid.a))
+	lookupTerm := "(Ok None)"
+	lookup := func(denom string) (*exchange.FeeRatio, error) { return nil, nil }
+	if p.ratio != nil {
+		lookupTerm = "(Ok (Some (R " + coqRatio(p.ratio) + ")))"
+		fr := &exchange.FeeRatio{Price: sdkCoin(mCoin{p.ratio.pd, p.ratio.p}), Fee: sdkCoin(mCoin{p.ratio.fd, p.ratio.f})}
+		lookup = func(denom string) (*exchange.FeeRatio, error) { return fr, nil }
 	}
-	mid, err := app.ExchangeKeeper.CreateMarket(ctx, market)
-	if err != nil {
-		t.Fatalf("create market: %v", err)
-	}
-	h.marketID = mid
-	defSplit := uint32([]int{0, 1, 500, 3333, 5000, 9999, 10000}[r.Intn(7)])
-	var dsplits []exchange.DenomSplit
-	var splitTerms []string
-	for i, d := range c01Denoms {
-		if r.Intn(3) == 0 {
-			s := uint32(r.Intn(10001))
-			if r.Intn(3) == 0 {
-				s = uint32([]int{0, 1, 2500, 10000}[r.Intn(4)])
-			}
-			dsplits = append(dsplits, exchange.DenomSplit{Denom: d, Split: s})
-			splitTerms = append(splitTerms, fmt.Sprintf("(%d, %d)", i+1, s))
+	asks2 := append([]*exchange.Order{}, asks...)
+	bids2 := append([]*exchange.Order{}, bids...)
+	r.Shuffle(len(asks2), func(i, j int) { asks2[i], asks2[j] = asks2[j], asks2[i] })
+	r.Shuffle(len(bids2), func(i, j int) { bids2[i], bids2[j] = bids2[j], bids2[i] })
+	run := func(a, b []*exchange.Order) (string, bool, bool) {
+		var stl *exchange.Settlement
+		err := try(func() error {
+			var e error
+			stl, e = exchange.BuildSettlement(a, b, lookup)
+			return e
+		})
+		if err != nil {
+			return "None", false, false
 		}
+		return "(Some " + coqSettlement(in, stl) + ")", true, stl.PartialOrderLeft != nil
 	}
-	app.ExchangeKeeper.SetParams(ctx, &exchange.Params{DefaultSplit: defSplit, DenomSplits: dsplits})
-
-	// --- accounts and funds ---
-	maxBits := []int{20, 40, 63, 70, 90}[r.Intn(5)]
-	fundAmt := new(big.Int).Lsh(big.NewInt(1), uint(maxBits+20))
-	poor := 0
-	if r.Intn(8) == 0 {
-		poor = 1 + r.Intn(nOwners)
+	t1, t2, t3, t4 := coqOrders(in, asks), coqOrders(in, bids), coqOrders(in, asks2), coqOrders(in, bids2)
+	o1, ok1, part1 := run(asks, bids)
+	o2, ok2, part2 := run(asks2, bids2)
+	term := fmt.Sprintf("CPerm %s %s %s %s %s %s %s", t1, t2, t3, t4, lookupTerm, o1, o2)
+	key := ""
+	if ok1 && ok2 && len(asks)+len(bids) > 2 {
+		key = term
 	}
-	for i := 1; i <= 5; i++ {
-		a := c01Owner(i)
-		ensureAccount(app, ctx, a)
-		h.accts = append(h.accts, a)
-		h.acctIDs = append(h.acctIDs, i)
-		if i > nOwners {
-			continue
-		}
-		amt := fundAmt
-		if i == poor {
-			amt = big.NewInt(r.Int63n(2000) + 1)
-		}
-		var cs sdk.Coins
-		for _, d := range c01Denoms {
-			cs = cs.Add(sdk.NewCoin(d, sdkmath.NewIntFromBigInt(amt)))
-		}
-		fund(t, app, ctx, a, cs)
-	}
-	marketAddr := exchange.GetMarketAddress(mid)
-	feeCol := authtypes.NewModuleAddress(authtypes.FeeCollectorName)
-	h.accts = append(h.accts, marketAddr, feeCol)
-	h.acctIDs = append(h.acctIDs, c01MarketAddrID, c01FeeColAddrID)
-	h.in.addrs[marketAddr.String()] = c01MarketAddrID
-	h.in.addrs[feeCol.String()] = c01FeeColAddrID
-	init := h.observe(true, "[]")
-
-	// --- operations ---
-	var big_ *bigOrder
-	rounds := 1 + r.Intn(4)
-	opts := planOpts{nOwners: nOwners, maxBits: maxBits, maxN: 3, ad: ad, pd: pd, ratio: ratio, flatAsk: flatAsk, flatBid: flatBid, feeBits: 12}
-	partialFills := 0
-	for rd := 0; rd < rounds; rd++ {
-		kind := r.Intn(10)
-		switch {
-		case kind < 6: // market settlement, possibly against the standing big order
-			p := g.plan(opts)
-			useBig := false
-			if big_ == nil && r.Intn(2) == 0 {
-				// create a standing order of m equal slices: every later partial fill of whole
-				// slices divides evenly
-				m := int64(3 + r.Intn(8))
-				q, u := g.amount(maxBits-8), g.small(40)
-				bo := &bigOrder{ask: r.Intn(2) == 0, slices: m, q: q, u: u, owner: 1 + r.Intn(nOwners)}
-				ord := mOrder{ask: bo.ask, owner: bo.owner, ad: ad, pd: pd, assets: mulB(q, big.NewInt(m)), price: mulB(mulB(q, u), big.NewInt(m)), partial: true}
-				if bo.ask {
-					if flatAsk != nil {
-						bo.feeUnit = []mCoin{{flatAsk.d, addB(flatAsk.a, g.small(5))}}
-					} else if r.Intn(2) == 0 {
-						bo.feeUnit = []mCoin{{1 + r.Intn(len(c01Denoms)), g.small(9)}}
-					}
-				} else {
-					if flatBid != nil {
-						bo.feeUnit = []mCoin{{flatBid.d, addB(flatBid.a, g.small(5))}}
-					}
-					if r.Intn(2) == 0 {
-						d := 1 + r.Intn(len(c01Denoms))
-						if flatBid == nil || d != flatBid.d {
-							bo.feeUnit = append(bo.feeUnit, mCoin{d, g.small(9)})
-						}
-					}
-				}
-				for _, fu := range bo.feeUnit {
-					ord.fees = append(ord.fees, mCoin{fu.d, mulB(fu.a, big.NewInt(m))})
-				}
-				sortCoins(ord.fees)
-				bo.id = h.create(ord)
-				if bo.id != 0 {
-					big_ = bo
-				}
-			}
-			if big_ != nil && r.Intn(4) != 0 {
-				useBig = true
-			}
-			var askIDs, bidIDs []uint64
-			expect := p.partialSide != 0
-			if useBig {
-				// rebuild the plan around the standing order: it is the last of its side and gets
-				// k of its remaining slices
-				k := int64(1 + r.Intn(int(big_.slices)))
-				if r.Intn(3) != 0 && big_.slices > 1 {
-					k = int64(1 + r.Intn(int(big_.slices-1)))
-				}
-				fillAssets := mulB(big_.q, big.NewInt(k))
-				fillPrice := mulB(mulB(big_.q, big_.u), big.NewInt(k))
-				expect = k < big_.slices
-				nOther := 1 + r.Intn(2)
-				owner := func() int { return 1 + r.Intn(nOwners) }
-				mk := func(ask bool, assets, price *big.Int) mOrder {
-					o := mOrder{ask: ask, owner: owner(), ad: ad, pd: pd, assets: assets, price: price, partial: r.Intn(2) == 0}
-					if ask && flatAsk != nil {
-						o.fees = []mCoin{{flatAsk.d, addB(flatAsk.a, g.small(4))}}
-					} else if !ask && flatBid != nil {
-						o.fees = []mCoin{{flatBid.d, addB(flatBid.a, g.small(4))}}
-					} else if r.Intn(2) == 0 {
-						o.fees = []mCoin{{1 + r.Intn(len(c01Denoms)), g.small(50)}}
-					}
-					return o
-				}
-				if fillAssets.Cmp(big.NewInt(int64(nOther))) < 0 {
-					nOther = 1
-				}
-				parts := g.compose(fillAssets, nOther)
-				if big_.ask {
-					// counter-side bids cover exactly the filled slices, paying at least their price
-					prices := g.compose(addB(fillPrice, big.NewInt(r.Int63n(7))), nOther)
-					if fillPrice.Cmp(big.NewInt(int64(nOther))) < 0 {
-						prices = g.compose(big.NewInt(int64(nOther)), nOther)
-					}
-					for i := 0; i < nOther; i++ {
-						if id := h.create(mk(false, parts[i], prices[i])); id != 0 {
-							bidIDs = append(bidIDs, id)
-						}
-					}
-					askIDs = []uint64{big_.id}
-				} else {
-					total := fillPrice
-					if r.Intn(2) == 0 && total.Cmp(big.NewInt(int64(nOther+3))) > 0 {
-						total = subB(total, big.NewInt(r.Int63n(3)))
-					}
-					if total.Cmp(big.NewInt(int64(nOther))) < 0 {
-						total = big.NewInt(int64(nOther))
-					}
-					prices := g.compose(total, nOther)
-					for i := 0; i < nOther; i++ {
-						if id := h.create(mk(true, parts[i], prices[i])); id != 0 {
-							askIDs = append(askIDs, id)
-						}
-					}
-					bidIDs = []uint64{big_.id}
-				}
-				if len(askIDs) == 0 || len(bidIDs) == 0 {
-					continue
-				}
-				if r.Intn(12) == 0 {
-					expect = !expect
-				}
-				if h.settle(askIDs, bidIDs, expect) {
-					if k < big_.slices {
-						big_.slices -= k
-						partialFills++
-					} else {
-						big_ = nil
-					}
-				}
-				continue
-			}
-			if r.Intn(100) < 15 {
-				g.perturb(&p)
-			}
-			for _, o := range p.asks {
-				// (a "wrong-side" perturbation leaves a bid in this list on purpose)
-				if id := h.create(o); id != 0 {
-					askIDs = append(askIDs, id)
-				}
-			}
-			for _, o := range p.bids {
-				if id := h.create(o); id != 0 {
-					bidIDs = append(bidIDs, id)
-				}
-			}
-			switch r.Intn(25) {
-			case 0:
-				expect = !expect
-			case 1:
-				askIDs = append(askIDs, 424242)
-			case 2:
-				if len(bidIDs) > 0 {
-					bidIDs = append(bidIDs, bidIDs[0])
-				}
-			case 3:
-				if len(askIDs) > 1 {
-					askIDs[0], askIDs[len(askIDs)-1] = askIDs[len(askIDs)-1], askIDs[0]
-				}
-			}
-			if len(askIDs) == 0 || len(bidIDs) == 0 {
-				continue
-			}
-			if h.settle(askIDs, bidIDs, expect) && p.partialSide != 0 {
-				partialFills++
-			}
-		case kind < 8: // a seller fills bids
-			nb := 1 + r.Intn(3)
-			seller := 1 + r.Intn(nOwners)
-			var ids []uint64
-			total := sdk.Coins{}
-			for i := 0; i < nb; i++ {
-				o := mOrder{ask: false, owner: 1 + r.Intn(nOwners), ad: ad, pd: pd, assets: g.amount(maxBits), price: g.amount(maxBits), partial: r.Intn(2) == 0}
-				if r.Intn(5) == 0 { // a second asset denom: FillBids allows mixed bids
-					o.ad = ad%len(c01Denoms) + 1
-					if o.ad == pd {
-						o.ad = o.ad%len(c01Denoms) + 1
-					}
-				}
-				if nOwners > 1 && r.Intn(6) != 0 {
-					for o.owner == seller {
-						o.owner = 1 + r.Intn(nOwners)
-					}
-				}
-				if flatBid != nil {
-					o.fees = []mCoin{{flatBid.d, addB(flatBid.a, g.small(4))}}
-				} else if r.Intn(2) == 0 {
-					o.fees = []mCoin{{1 + r.Intn(len(c01Denoms)), g.small(50)}}
-				}
-				if id := h.create(o); id != 0 {
-					ids = append(ids, id)
-					total = total.Add(sdkCoin(mCoin{o.ad, o.assets}))
-				}
-			}
-			if len(ids) == 0 {
-				continue
-			}
-			var flat *sdk.Coin
-			if flatAsk != nil && r.Intn(8) != 0 {
-				c := sdkCoin(mCoin{flatAsk.d, addB(flatAsk.a, big.NewInt(r.Int63n(3)))})
-				flat = &c
-			} else if flatAsk == nil && r.Intn(2) == 0 {
-				c := sdkCoin(mCoin{1 + r.Intn(len(c01Denoms)), g.small(30)})
-				flat = &c
-			}
-			switch r.Intn(15) {
-			case 0:
-				total = total.Add(sdkCoin(mCoin{ad, big.NewInt(1)}))
-			case 1:
-				ids = append(ids, 424242)
-			}
-			h.fillBids(seller, ids, total, flat)
-		default: // a buyer fills asks
-			na := 1 + r.Intn(3)
-			buyer := 1 + r.Intn(nOwners)
-			var ids []uint64
-			total := new(big.Int)
-			for i := 0; i < na; i++ {
-				price := g.amount(maxBits)
-				if price.Cmp(big.NewInt(100)) < 0 {
-					price = addB(price, big.NewInt(100))
-				}
-				o := mOrder{ask: true, owner: 1 + r.Intn(nOwners), ad: ad, pd: pd, assets: g.amount(maxBits), price: price, partial: r.Intn(2) == 0}
-				if nOwners > 1 && r.Intn(6) != 0 {
-					for o.owner == buyer {
-						o.owner = 1 + r.Intn(nOwners)
-					}
-				}
-				if flatAsk != nil {
-					o.fees = []mCoin{{flatAsk.d, addB(flatAsk.a, g.small(4))}}
-				} else if r.Intn(2) == 0 {
-					o.fees = []mCoin{{1 + r.Intn(len(c01Denoms)), g.small(50)}}
-				}
-				if id := h.create(o); id != 0 {
-					ids = append(ids, id)
-					total = addB(total, o.price)
-				}
-			}
-			if len(ids) == 0 {
-				continue
-			}
-			fees := sdk.Coins{}
-			if flatBid != nil && r.Intn(8) != 0 {
-				fees = fees.Add(sdkCoin(mCoin{flatBid.d, addB(flatBid.a, big.NewInt(r.Int63n(3)))}))
-			}
-			if r.Intn(2) == 0 {
-				fees = fees.Add(sdkCoin(mCoin{1 + r.Intn(len(c01Denoms)), g.small(30)}))
-			}
-			switch r.Intn(15) {
-			case 0:
-				total = addB(total, big.NewInt(1))
-			case 1:
-				ids = append(ids, ids[0])
-			}
-			h.fillAsks(buyer, ids, sdkCoin(mCoin{pd, total}), fees)
-		}
-	}
-	if h.nOps == 0 {
-		return
-	}
-	ids := make([]string, len(h.acctIDs))
-	for i, a := range h.acctIDs {
-		ids[i] = fmt.Sprint(a)
-	}
-	cfg := fmt.Sprintf("(Cfg %s %s %d %s %s %d %d)", coqList(ratioTerms), coqList(splitTerms), defSplit, sflat, bflat, c01MarketAddrID, c01FeeColAddrID)
-	term := fmt.Sprintf("CHist %s %s %d %s %s", cfg, coqList(ids), len(c01Denoms), init, coqList(h.steps))
-	w.Add(term, map[string]any{"stream": "stateful", "ops": h.nOps, "accepted": h.nOK, "owners": nOwners, "ratio": ratio != nil,
-		"partial_fills": partialFills, "term": term})
-	w.Count("history")
-	w.CountN("history_ops", int64(h.nOps))
-	w.CountN("history_ops_accepted", int64(h.nOK))
-	if partialFills >= 2 {
-		w.Count("history_repeated_partial_fill")
-	}
-	if maxBits > 64 {
-		w.Count("history_amounts_above_2^64")
-	}
-	if h.nOK > 0 {
-		w.Nontrivial(term)
+	g.emit(0, term, map[string]any{"stream": "pure", "fn": "BuildSettlement x2 (permuted)", "asks": len(asks), "bids": len(bids), "ok1": ok1, "ok2": ok2, "term": term}, key)
+	w.Count("perm")
+	switch {
+	case ok1 && ok2 && !part1 && !part2:
+		w.Count("perm_both_accepted_no_split")
+	case ok1 && ok2:
+		w.Count("perm_both_accepted_with_split")
+	case ok1 != ok2:
+		w.Count("perm_acceptance_differs")
 	}
 }
 
 func TestC01(t *testing.T) {
 	r := newRand("C01")
-	w := NewCaseWriter("C01", "PV.Corr.C01", "check_all", 250)
-	g := &c01Gen{r: r, pool: boundaryAmounts(), w: w}
+	w := NewCaseWriter("C01", "PV.Corr.C01", "check_all", scale(190, 1000))
+	pool := boundaryAmounts()
+	// amounts around 2^63 / k and 2^64 / k for the k a fast path of the exchange split might multiply by
+	for _, k := range []int64{2, 3, 500, 2500, 3333, 5000, 9999, 10000} {
+		for _, e := range []uint{63, 64} {
+			q := new(big.Int).Quo(pow2(e), big.NewInt(k))
+			pool = append(pool, bigAdd(q, -1), q, bigAdd(q, 1))
+		}
+	}
+	g := &c01Gen{r: r, pool: pool, w: w, feeBits: 40}
 	app, base := newApp(t)
 
-	nBuild := scale(1600, 120000)
-	nSplit := scale(500, 30000)
-	nHist := scale(300, 12000)
+	nBuild := scale(1300, 60000)
+	nPerm := scale(300, 8000)
+	nSplit := scale(500, 20000)
+	nHist := scale(420, 4000)
 	for i := 0; i < nBuild; i++ {
 		g.pureBuild(i)
+	}
+	for i := 0; i < nPerm; i++ {
+		g.purePerm()
 	}
 	for i := 0; i < nSplit; i++ {
 		g.pureSplit()
 	}
 	for i := 0; i < nHist; i++ {
-		g.history(t, app, base, i)
+		g.feeBits = []int{12, 12, 40, 64}[r.Intn(4)]
+		if p := g.multiHistory(t, app, base); p != nil {
+			g.emit(2, p.term, p.desc, p.key)
+		}
 	}
+	for i := 0; i < scale(12, 60); i++ {
+		if p := g.manyPayersHistory(t, app, base); p != nil {
+			g.emit(3, p.term, p.desc, p.key)
+		}
+	}
+	g.flushInterleaved()
 	w.Flush(t)
 }
